@@ -416,22 +416,9 @@ class TextXVisitor(RRELVisitor):
                 rule_name = rule.rule_name
                 suppress = rule.suppress
                 if rule_name in model_parser.metamodel:
-                    if rule_name in resolving:
-                        # The body of this rule is, directly or through other
-                        # such rules, only a reference to the rule itself.
-                        line, col = grammar_parser.pos_to_linecol(rule.position)
-                        raise TextXSemanticError(
-                            f'Rule "{rule_name}" is defined only by a reference '
-                            f"to itself at position {(line, col)}.",
-                            line,
-                            col,
-                            filename=model_parser.metamodel.file_name,
-                        )
                     rule = model_parser.metamodel[rule_name]._tx_peg_rule
                     if isinstance(rule, RuleCrossRef):
-                        resolving.add(rule_name)
                         rule = _resolve_rule(rule)
-                        resolving.discard(rule_name)
                         model_parser.metamodel[rule_name]._tx_peg_rule = rule
                     if suppress:
                         # Special case. Suppression on rule reference.
@@ -459,9 +446,24 @@ class TextXVisitor(RRELVisitor):
 
             return rule
 
-        # Names of the rules whose body (a plain rule reference) is being
-        # resolved. Used to detect rules defined only by themselves.
-        resolving = set()
+        # A rule whose body is just a rule reference can't be resolved if the
+        # chain of such references leads back to the rule itself.
+        metamodel = model_parser.metamodel
+        for cls in metamodel:
+            names = [cls.__name__]
+            rule = cls._tx_peg_rule
+            while isinstance(rule, RuleCrossRef) and rule.rule_name in metamodel:
+                if rule.rule_name in names:
+                    line, col = grammar_parser.pos_to_linecol(rule.position)
+                    raise TextXSemanticError(
+                        f'Rule "{rule.rule_name}" is defined only by a reference '
+                        f"to itself at position {(line, col)}.",
+                        line,
+                        col,
+                        filename=metamodel.file_name,
+                    )
+                names.append(rule.rule_name)
+                rule = metamodel[rule.rule_name]._tx_peg_rule
 
         # Two pass resolving
         for i in range(2):
